@@ -481,6 +481,11 @@ func genCore(prop string, seed uint64, faulty bool) *Scenario {
 					op.Str = "fail"
 				}
 				op.Ctx, op.D = g.ctxKind(k.pDeadline, k.pExpired)
+				if k.lifecycle && op.Str == "static" && g.pct(15) {
+					// a watching inner source, set with a context of the caller's
+					// own: the Blank hands its slot over (and refuses to replace it)
+					op.Str, op.Ctx, op.D = "watch", "own", 0
+				}
 				c.Ops = append(c.Ops, op)
 				if op.Str != "fail" && g.pct(30) {
 					c.Ops = append(c.Ops, Op{K: "setsource", Str: "retry"})
@@ -600,6 +605,14 @@ func genCore(prop string, seed uint64, faulty bool) *Scenario {
 			}
 		}
 		if hasDone {
+			// (a context of the caller's own that never ends is no good then)
+			for ci := range sc.Clients {
+				for oi := range sc.Clients[ci].Ops {
+					if op := &sc.Clients[ci].Ops[oi]; op.K == "setsource" && op.Str == "watch" {
+						op.Str, op.Ctx = "static", ""
+					}
+				}
+			}
 			// once every watcher is Done the monitor is gone and pending calls
 			// may block until their own context ends: give every call one
 			for ci := range sc.Clients {
